@@ -36,7 +36,7 @@ TRUSTED = ["the driver instantiates the model's order with C10's model of versio
            "input of the model (interface with C07); the harness checks the prediction on every cached child",
            "user tags are laid out by the harness as chain files in <userdata>/_caches_<stack>/<product>/ and registered through "
            "hooks.config.Eups.userTags; SETUP_<NAME> is written as `name version -f flavor [-Z stack]` (what `setup` records)",
-           "tag files (file:... / a VRO entry naming a file), tag groups other than global/user/pseudo, and the `setup` pseudo-tag "
+           "`file:` spellings and -t <file> in selectVRO (a VRO entry naming a tag file is modelled), tag groups other than global/user/pseudo, and the `setup` pseudo-tag "
            "under --ignore-versions (findSetupProduct then runs the older findPreferredProduct) are outside the model"]
 ASSUMPTIONS = ["one Eups instance per command; selectVRO is called once per instance (twice by `eups vro`, modelled)",
                "at most one version per (tag, product, flavor) and stack; version and chain files are well formed",
@@ -67,6 +67,7 @@ TAGS = ["current", "stable", "beta", "t"]          # `t`: a tag whose name is a 
 GLOBAL_TAGS = ["current", "stable", "beta", "t"]
 USER_TAGS = ["mine"]                      # registered through hooks.config.Eups.userTags; chain records live in the user's
 UTAG = "user:mine"                        # data directory and are kept under the qualified name
+TAGFILE = "$R/tagfile.txt"                # a VRO entry naming an existing file is read as a tag file
 LOCAL_OK, LOCAL_NO = "LOCAL:$R/ldir", "LOCAL:$R/nodir"    # $R = the scratch root; `ldir` exists, `nodir` does not
 NAMES = ["p", "q"]
 PREV_PREFERRED = ["version", "versionExpr", "current", "stable", "latest"]
@@ -236,7 +237,26 @@ def spec_tag_key(ent):
     return None
 
 
-def spec_entry(world, name, flavor, ent, version, setup=None):
+def spec_tagfile(world, name, flavor, tagfile):
+    """What a tag file designates (from the generator's description of its lines); None = the property is silent."""
+    want = None
+    for ln in tagfile["lines"]:
+        if ln[0] == "bad":
+            return None
+        if ln[0] == "pair" and ln[1] == name:
+            want = ln[2]
+            break
+    if want is None:
+        return set()
+    if _RELOP.search(want) or want.startswith("LOCAL:"):
+        return None
+    r = spec_first_stack(world, lambda st: True if [name, want, flavor] in st["decls"] else None)
+    return {(want, r[0])} if r else None      # declared nowhere: a loud failure (checked in stream G)
+
+
+def spec_entry(world, name, flavor, ent, version, setup=None, tagfile=None):
+    if ent == TAGFILE:
+        return spec_tagfile(world, name, flavor, tagfile) if tagfile else None
     """The set of (version, stack) answers the property allows entry `ent` to give; empty = the entry does not
     apply; None = the property does not speak about this entry."""
     def decl(st, v):
@@ -294,12 +314,12 @@ def spec_entry(world, name, flavor, ent, version, setup=None):
     return None
 
 
-def spec_walk(world, name, flavor, vro, version, setup=None):
+def spec_walk(world, name, flavor, vro, version, setup=None, tagfile=None):
     """('hit', answers, entry) | ('none',) | ('unspecified',): read the VRO left to right; the first entry that
     applies designates the product; a request that names a version or expression does not fall through to tags
     once no version entry is left."""
     for i, ent in enumerate(vro):
-        ans = spec_entry(world, name, flavor, ent, version, setup)
+        ans = spec_entry(world, name, flavor, ent, version, setup, tagfile)
         if ans is None:
             return ("unspecified",)
         if ans:
@@ -621,6 +641,13 @@ def gen_lookup(rng, world, pool, names):
                  "stack": rng.randrange(len(world["stacks"])) if rng.random() < 0.9 else None}
     if rng.random() < 0.07:
         version, vexpr = rng.choice([LOCAL_OK, LOCAL_OK, LOCAL_NO]), None
+    tagfile = None
+    if rng.random() < 0.06:
+        lines, text = gen_tagfile(rng, names)
+        lines = [("pair", l[1], "1.2") if (l[0] == "pair" and l[2] == G_HYPHEN) else l for l in lines]
+        tagfile = {"lines": [list(l) for l in lines], "text": text.replace(G_HYPHEN, "1.2")}
+        vro = list(rng.choice([[TAGFILE, "current"], ["type:exact", "commandLine", TAGFILE, "version", "versionExpr", "current"],
+                               ["version", "versionExpr", TAGFILE, "stable"], ["beta", TAGFILE]]))
     if rng.random() < 0.1:
         rng.shuffle(vro)
     depth = rng.choice([0, 0, 1, 2])
@@ -633,6 +660,8 @@ def gen_lookup(rng, world, pool, names):
     if setup:
         lk["setup"] = setup
         lk["ignore"] = False        # --ignore-versions turns the lookup of the set-up product into findPreferredProduct: not modelled
+    if tagfile:
+        lk["tagfile"] = tagfile
     return lk
 
 
@@ -661,18 +690,26 @@ def b_child(stacks, mode, lookups):
                 os.environ[envname] = "%s %s -f %s%s" % (lk["name"], su["version"].replace("$R", scratch), su["flavor"],
                                                        "" if su["stack"] is None else " -Z " + stacks[su["stack"]])
             version = lk["version"].replace("$R", scratch) if lk["version"] else lk["version"]
+            tf = lk.get("tagfile")
+            tfpath = TAGFILE.replace("$R", scratch)
+            if tf:
+                with open(tfpath, "w") as fd:
+                    fd.write(tf["text"].replace("$R", scratch))
+            elif os.path.exists(tfpath):
+                os.unlink(tfpath)
             try:
                 p, why = E.findProductFromVRO(lk["name"], version, versionExpr=lk["vexpr"], flavor=lk["flavor"],
-                                              noCache=(mode.startswith("mixed")), recursionDepth=lk["depth"], vro=list(lk["vro"]))
+                                              noCache=(mode.startswith("mixed")), recursionDepth=lk["depth"],
+                                              vro=[e.replace("$R", scratch) for e in lk["vro"]])
                 if p is None:
                     outs.append({"out": "ok", "hit": None})
                 else:
                     root = p.stackRoot()
                     outs.append({"out": "ok", "hit": {"version": p.version.replace(scratch, "$R"), "flavor": p.flavor or "",
                                                       "stack": stacks.index(root) if root in stacks else -1,
-                                                      "reason": why[0] if why else None}})
+                                                      "reason": why[0].replace(scratch, "$R") if why and why[0] else None}})
             except Exception as e:  # noqa
-                outs.append({"out": "err", "err": err_enum(e)})
+                outs.append({"out": "err", "err": api_err(e) if tf else err_enum(e)})
             os.environ.pop(envname, None)
     return {"loaded": loaded, "outs": outs}
 
@@ -696,6 +733,17 @@ def b_impl_item(item):
 
 def b_model_req(world, mode, lk):
     m = {"files": "files", "cache-rebuilt": "cache", "cache-accepted": "cache", "mixed-accepted": "mixed"}[mode]
+    extra = {}
+    if lk.get("tagfile"):
+        # a VRO entry names a tag file: the walk of Model/VroApi.lean; the lookup the file ends in reads the instance's own
+        # preferred tags (the default VRO: the child called selectVRO()) only for expressions
+        extra = {"op": "findF", "files": [[TAGFILE, lk["tagfile"]["text"]]],
+                 "q": {"name": lk["name"], "flavor": lk["flavor"], "ignore": lk["ignore"], "preferred": list(DEFAULT_DICT[0][1]),
+                       "force": False}}
+    return dict(b_model_req0(world, m, mode, lk), **extra)
+
+
+def b_model_req0(world, m, mode, lk):
     return {"m": "c03", "op": "find", "db": world["stacks"], "mode": m, "loaded": FLAVS,
             "accepted": accepted_stacks(world, mode), "globalTags": GLOBAL_TAGS,
             "userTags": USER_TAGS + ["root"], "dirs": ["$R/ldir"],
@@ -732,7 +780,7 @@ def b_oracle(world, mode, lk, out):
     v = lk["version"]
     if v is not None and (v == "" or not re.match(r"^[0-9.<>=|& ]+$", v) or re.match(r"^\s*=\s", v)):
         return
-    want = spec_walk(world, lk["name"], lk["flavor"], lk["vro"], v, lk.get("setup"))
+    want = spec_walk(world, lk["name"], lk["flavor"], lk["vro"], v, lk.get("setup"), lk.get("tagfile"))
     if want[0] == "unspecified":
         return
     hit = out["hit"]
@@ -799,6 +847,8 @@ def eval_b(ctx, items):
             ctx.hist("B:already-set-up")
         if lk.get("setup"):
             ctx.hist("B:SETUP_-in-environment")
+        if lk.get("tagfile"):
+            ctx.hist("B:vro-with-tag-file")
         if lk["version"] and lk["version"].startswith("LOCAL:"):
             ctx.hist("B:request=LOCAL:")
         if any(spec_tag_key(e) == UTAG for e in lk["vro"]):
@@ -1664,6 +1714,13 @@ def gen_g(rng):
         c["version"] = None if r < 0.35 else rng.choice(have) if (r < 0.6 and have) else rng.choice(["9.9", ""]) if r < 0.7 else rng.choice(EXPRS)
         c["ignore"] = rng.random() < 0.1
     return c
+
+
+def api_err(e):
+    n, msg = type(e).__name__, str(e)
+    return ("file:suspicious" if "Suspicious line" in msg else "file:invalid" if "Invalid line" in msg else
+            "tagNotRecognized" if n == "TagNotRecognized" else "notFound" if n == "RuntimeError" and "Unable to find product" in msg
+            else "badExpr" if n == "EupsException" and "Bad expr" in msg else err_enum(e))
 
 
 def g_child(stacks, c):
